@@ -88,12 +88,16 @@ static void va_push(char kind, uint32_t id, uint32_t id2, int type, size_t size)
 /* ------------------------------------------------------------------ pointer table */
 enum { VA_EMPTY = 0, VA_LIVE = 1, VA_FREED = 2, VA_FOREIGN = 3, VA_TOMB = 4 };
 typedef struct {
-  void *p;
+  uintptr_t hp;   /* the pointer, xor-ed with VA_HIDE so that LeakSanitizer does not take this
+                     table for a live reference to a leaked block */
   uint32_t id;
   int state;
   int type;
   size_t size;
 } va_ent_t;
+#define VA_HIDE ((uintptr_t)0x5a5a5a5a5a5a5a5aull)
+#define VA_HP(p) (((uintptr_t)(p)) ^ VA_HIDE)
+#define VA_PTR(e) ((void *)((e)->hp ^ VA_HIDE))
 
 static va_ent_t *va_tab = NULL;
 static size_t va_tab_cap = 0, va_tab_used = 0;   /* used = non-empty slots (incl. tombstones) */
@@ -111,7 +115,7 @@ static va_ent_t *va_find(const void *p) {
   size_t m = va_tab_cap - 1, i = va_hash(p) & m;
   for (size_t n = 0; n < va_tab_cap; n++, i = (i + 1) & m) {
     if (va_tab[i].state == VA_EMPTY) return NULL;
-    if (va_tab[i].state != VA_TOMB && va_tab[i].p == p) return &va_tab[i];
+    if (va_tab[i].state != VA_TOMB && va_tab[i].hp == VA_HP(p)) return &va_tab[i];
   }
   return NULL;
 }
@@ -125,7 +129,7 @@ static va_ent_t *va_slot(void *p) {
   size_t m = va_tab_cap - 1, i = va_hash(p) & m;
   while (va_tab[i].state != VA_EMPTY && va_tab[i].state != VA_TOMB) i = (i + 1) & m;
   if (va_tab[i].state == VA_EMPTY) va_tab_used++;
-  va_tab[i].p = p;
+  va_tab[i].hp = VA_HP(p);
   va_tab[i].state = VA_TOMB;   /* caller sets the real state */
   return &va_tab[i];
 }
@@ -138,7 +142,7 @@ static void va_grow(void) {
   va_tab_used = 0;
   for (size_t i = 0; i < oc; i++) {
     if (old[i].state == VA_EMPTY || old[i].state == VA_TOMB) continue;
-    size_t m = va_tab_cap - 1, j = va_hash(old[i].p) & m;
+    size_t m = va_tab_cap - 1, j = va_hash(VA_PTR(&old[i])) & m;
     while (va_tab[j].state != VA_EMPTY) j = (j + 1) & m;
     va_tab[j] = old[i];
     va_tab_used++;
